@@ -165,3 +165,118 @@ def c01(ctx):
         assumptions=["bounded value size (see tlc_runs); scalar payloads come from the concretisation profiles in harness/model/conc.go",
                      "DeepEqual/Copy are not asserted for uint64 values above MaxInt64 (they go through AsInt; 'where supported')"],
         exhaustive=True)
+
+
+# --------------------------------------------------------------------------- DAG-CBOR
+def cbor_consts(relaxed=False, links=True, maxdepth=1024):
+    return """  Relaxed = %s
+  AllowLinks = %s
+  MaxDepthCfg = %d
+""" % ("TRUE" if relaxed else "FALSE", "TRUE" if links else "FALSE", maxdepth)
+
+
+def enc_cfg(domain, shard, nshards):
+    return """SPECIFICATION Spec
+CONSTANTS
+%s  Domain = "%s"
+  Shard = %d
+  NShards = %d
+INVARIANTS RoundTrip LengthAgrees OrderIndependent CanonicalIsFixpoint Emit
+CHECK_DEADLOCK FALSE
+""" % (cbor_consts(), domain, shard, nshards)
+
+
+@prop("C02")
+def c02(ctx):
+    quick = ctx.tier == "quick"
+    plan = [("D1", 2), ("D2", 2), ("D3", 4)] if quick else [("D1", 2), ("D2", 2), ("D3", 4), ("D4", 8)]
+    jobs = []
+    files = []
+    for dom, n in plan:
+        for sh in range(n):
+            f = os.path.join(ctx.scratch, "enc-%s-%d.ndjson" % (dom, sh))
+            files.append(f)
+            jobs.append(dict(module="DagCborEnc", cfg=enc_cfg(dom, sh, n), capture=f, workers=1,
+                             heap="3g", timeout=2400))
+    ctx.tlc_parallel(jobs, max_procs=8 if quick else 16)
+    allf = os.path.join(ctx.scratch, "enc-all.ndjson")
+    with open(allf, "w") as out:
+        for f in files:
+            out.write(open(f).read())
+            os.remove(f)
+    args = ["cborenc", "-in", allf, "-seed", str(ctx.seed), "-orders", "200" if quick else "1000"]
+    rep = ctx.vh_run(args)
+    ctx.absorb(rep, args, label="cborenc")
+    return ctx.finish(
+        "model_checking",
+        rule="one initial state per value of the bounded domains D1..D3 (boundary ints of every head width on both signs "
+             "incl. uint64 above int64, length boundaries 0/1/23/24/255/256, keys exercising length-then-bytewise order, "
+             "every CID shape, nesting <= 3); TLC checks Dec(Enc(v))=Sorted(v), |Enc(v)|=EncLen(v), order independence; "
+             "each value is replayed under every insertion order (cap per value, seeded sample beyond) in 4 node "
+             "implementations; non-trivial = container or multi-byte encoding; distinct = distinct values",
+        assumptions=["float payloads are opaque 8-byte patterns (TLA+ has no floats)",
+                     "the value domain is bounded; see CborValues.tla"],
+        exhaustive=True)
+
+
+def dec_cfg(mode, free=3, alphabet="full", seeds="basic", shard=0, nshards=1, relaxed=False, links=True, maxdepth=1024):
+    return """SPECIFICATION Spec
+CONSTANTS
+%s  Mode = "%s"
+  Free = %d
+  AlphabetName = "%s"
+  SeedSet = "%s"
+  Shard = %d
+  NShards = %d
+INVARIANTS AcceptedDenotesBytes AcceptedCanonical AcceptedWellFormed DepthBounded Emit
+CHECK_DEADLOCK FALSE
+""" % (cbor_consts(relaxed, links, maxdepth), mode, free, alphabet, seeds, shard, nshards)
+
+
+def cbordec_stage(ctx, label, cfg, relaxed=False, workers=4, extra_args=None):
+    f = os.path.join(ctx.scratch, "dec-%s.ndjson" % label)
+    ctx.tlc("DagCborDec", cfg, capture=f, workers=workers, timeout=2400)
+    args = ["cbordec", "-in", f] + (["-relaxed"] if relaxed else []) + (extra_args or [])
+    rep = ctx.vh_run(args)
+    ctx.absorb(rep, args, label="cbordec/" + label)
+    os.remove(f)
+    return rep
+
+
+@prop("C03")
+def c03(ctx):
+    quick = ctx.tier == "quick"
+    # (i) all short strings over the representative alphabet (+ scripted prefixes)
+    cbordec_stage(ctx, "short", dec_cfg("explore", free=3 if quick else 4, alphabet="full" if quick else "small"), workers=8)
+    cbordec_stage(ctx, "prefixed", dec_cfg("explore", free=2 if quick else 3, alphabet="full", seeds="deep"), workers=8)
+    # (ii) byte-level mutants of canonical encodings
+    nsh = 8
+    jobs = []
+    files = []
+    for sh in range(nsh):
+        f = os.path.join(ctx.scratch, "mut-%d.ndjson" % sh)
+        files.append(f)
+        jobs.append(dict(module="DagCborDec", cfg=dec_cfg("mutants", shard=sh, nshards=nsh), capture=f, workers=2,
+                         heap="3g", timeout=2400))
+    ctx.tlc_parallel(jobs, max_procs=8)
+    allf = os.path.join(ctx.scratch, "mut-all.ndjson")
+    with open(allf, "w") as out:
+        for f in files:
+            out.write(open(f).read())
+            os.remove(f)
+    args = ["cbordec", "-in", allf]
+    ctx.absorb(ctx.vh_run(args), args, label="cbordec/mutants")
+    # (iii) relaxed mode: only what it still promises (indefinite rejected, value fidelity)
+    cbordec_stage(ctx, "relaxed", dec_cfg("explore", free=2 if quick else 3, alphabet="full", seeds="deep", relaxed=True),
+                  relaxed=True, workers=8)
+    return ctx.finish(
+        "model_checking",
+        rule="inputs = every byte string over a 51-byte representative alphabet (one byte per major type x additional-info "
+             "class + payload bytes) up to the free length, after each scripted prefix, plus every byte-level mutant "
+             "(bit flips, substitutions, truncations, extensions, deletions, duplications) of the canonical encodings of "
+             "the bounded value domain; the specification's decoder machine gives the verdict (accept + value, or a "
+             "labelled rejection) for each and the real decoder must agree; non-trivial = longer than one byte; "
+             "distinct = distinct byte strings",
+        assumptions=["strings are not required to be valid UTF-8 (the property does not ask for it)",
+                     "CID well-formedness follows the CID/multihash/varint specifications (ValidCid)"],
+        exhaustive=True)
